@@ -436,6 +436,11 @@ func mkOps(cfg Config) []opDef {
 	add(1)
 	add(4)
 	for _, b := range cfg.B {
+		if b.Strategy == 0 {
+			add(maxAllowedRt) // a response time exactly on the limit is not slow; 4 is
+		}
+	}
+	for _, b := range cfg.B {
 		bc := int64(b.Buckets)
 		if bc == 0 || int64(b.Interval)%bc != 0 {
 			bc = 1
